@@ -95,8 +95,9 @@ def restoreOrderOf (fault : Option Step) (first : Bool) (L : List Path) : List P
     if first then L.filter (· == x) ++ L.filter (· != x) else L.filter (· != x) ++ L.filter (· == x)
   | _ => L
 
-def mkEnv (fault : Option Step) (corder : List Path) (rfirst : Bool := true) : Env :=
-  { plan := fun s => match fault with | some f => decide (s = f) | none => false,
+def mkEnv (fault : Option Step) (corder : List Path) (rfirst : Bool := true) (backupBroken : Bool := false) : Env :=
+  { plan := fun s => (backupBroken && decide (s = .backupRead)) ||
+      (match fault with | some f => decide (s = f) | none => false),
     validates := envValidates, metricsOk := envMetricsOk, hasEndpoints := envHasEndpoints,
     cleanOrder := corder, restoreOrder := restoreOrderOf fault rfirst }
 
@@ -218,7 +219,52 @@ def parseEntries (ws : List String) : Option Disk :=
       | none => none
     | _ => none
 
+/-- `init` entries. Besides `<logical>=<tok>` (a regular file):
+      `<logical>=<tok>~out`   a symbolic link to a file outside the configuration directories holding <tok>
+      `<logical>=<tok>~in`    a symbolic link to `<dir>/lnk/<name>` (which must be listed, with the same token)
+      `<logical>=~dangling`   a symbolic link to nothing
+      `<logical>=~dir`        a symbolic link to a directory
+    (links only in f/ q/ p/). What the code does with them today — `filepath.Walk` uses Lstat, so a link is a
+    non-directory entry; `backupFile` Stats/opens/reads THROUGH it — is mirrored as: a link to a file IS a
+    file with the content read through it (backed up, cleaned, restored as a regular file with that
+    content: the observers of the property — loaders, engine, `ls` — read through the path); a dangling
+    link is absent (Stat says "not exist": skipped by the backup, removed by clean-up, never restored); a
+    link to a directory makes every `Backup()` fail (`ReadAll` on a directory), so every push is answered
+    500 in phase backup and changes nothing. Returns the tree and that flag. -/
+def parseInit (ws : List String) : Option (Disk × Bool) := do
+  let step (acc : Disk × Bool × List Path × List (Path × Bytes)) (w : String) :
+      Option (Disk × Bool × List Path × List (Path × Bytes)) :=
+    let (d, dirl, seen, ins) := acc
+    match w.splitOn "=" with
+    | [l, v] =>
+      match parsePath l with
+      | none => none
+      | some p =>
+        if seen.contains p || v.isEmpty then none else
+        let isDirFile := match p with | .flow _ | .quota _ | .pparam _ => true | _ => false
+        match v.splitOn "~" with
+        | [t] => some (d.write p t, dirl, p :: seen, ins)
+        | [t, kind] =>
+          if !isDirFile then none
+          else if t.isEmpty && kind == "dangling" then some (d, dirl, p :: seen, ins)
+          else if t.isEmpty && kind == "dir" then some (d, true, p :: seen, ins)
+          else if !t.isEmpty && kind == "out" then some (d.write p t, dirl, p :: seen, ins)
+          else if !t.isEmpty && kind == "in" then some (d.write p t, dirl, p :: seen, (p, t) :: ins)
+          else none
+        | _ => none
+    | _ => none
+  let (d, dirl, _, ins) ← ws.foldlM step (([] : Disk), false, [], [])
+  -- every `~in` link needs its target `<dir>/lnk/<name>` in the tree, holding the same token
+  let okIn := ins.all fun (p, t) =>
+    match p with
+    | .flow n => !nested n && d.get (.flow ("lnk/" ++ n)) == some t
+    | .quota n => !nested n && d.get (.quota ("lnk/" ++ n)) == some t
+    | .pparam n => !nested n && d.get (.pparam ("lnk/" ++ n)) == some t
+    | _ => false
+  if okIn then pure (d, dirl) else none
+
 structure RunSt where
+  dirLink : Bool := false   -- a link to a directory sits in the tree: every Backup() fails
   st : State := ⟨[], .uninit⟩
   live : Bool := false
   held : Option Put := none
@@ -230,11 +276,11 @@ def runStep (s : RunSt) (line : String) : RunSt × String :=
   match words line with
   | ["case", id] => ({}, s!"case {id}")
   | "init" :: ws =>
-    match parseEntries ws with
+    match parseInit ws with
     | none => ({ s with live := false }, "bad-op")
-    | some d =>
+    | some (d, dirl) =>
       let r := reload (mkEnv none []) 1 false d .uninit []
-      if r.ok then ({ s with st := ⟨d, r.engine⟩, live := true }, "ok")
+      if r.ok then ({ s with st := ⟨d, r.engine⟩, live := true, dirLink := dirl }, "ok")
       else ({ s with live := false }, "err:load")
   | ["ls"] => if s.live then (s, fmtDisk s.st.disk) else (s, "skip")
   | ["probe", names] => if s.live then (s, fmtProbe (probeNames names) s.st.engine) else (s, "skip")
@@ -244,7 +290,7 @@ def runStep (s : RunSt) (line : String) : RunSt × String :=
     | some p =>
       if !s.live then (s, "skip") else
       if s.held.isSome && (p.fault.isSome || p.req.gate) then (s, "bad-op") else
-      let r := handleLocked (mkEnv p.fault p.corder p.rfirst) s.st s.held.isSome p.req
+      let r := handleLocked (mkEnv p.fault p.corder p.rfirst s.dirLink) s.st s.held.isSome p.req
       ({ s with st := r.state },
        s!"status={r.status} phase={fmtPhase r.phase} mid={fmtMid p.probes r.mid}")
   | "hold" :: ws =>
@@ -254,7 +300,7 @@ def runStep (s : RunSt) (line : String) : RunSt × String :=
       if !s.live then (s, "skip") else
       if s.held.isSome then (s, "bad-op") else
       -- everything before `Backup()` (method check, JSON decode) happens before the parking point
-      let r := handle (mkEnv p.fault p.corder p.rfirst) s.st p.req
+      let r := handle (mkEnv p.fault p.corder p.rfirst s.dirLink) s.st p.req
       if r.phase == .method || r.phase == .decode || r.phase == .nodata then
         (s, s!"status={r.status} phase={fmtPhase r.phase} mid={fmtMid p.probes r.mid}")
       else ({ s with held := some p }, "parked")
@@ -263,7 +309,7 @@ def runStep (s : RunSt) (line : String) : RunSt × String :=
     match s.held with
     | none => (s, "none")
     | some p =>
-      let r := handle (mkEnv p.fault p.corder p.rfirst) s.st p.req
+      let r := handle (mkEnv p.fault p.corder p.rfirst s.dirLink) s.st p.req
       ({ s with st := r.state, held := none },
        s!"status={r.status} phase={fmtPhase r.phase} mid={fmtMid p.probes r.mid}")
   | _ => (s, "bad-op")
